@@ -11,3 +11,7 @@ import Adsg.Props.C16
 #print axioms Adsg.C16.decode_dv_absent_canonical
 #print axioms Adsg.C16.decode_dv_idempotent
 #print axioms Adsg.C16.linked_discrete_same_index
+#print axioms Adsg.C16.correct_nearest
+#print axioms Adsg.C16.correct_changes_only_outside
+#print axioms Adsg.C16.trunc_bounds_neg
+#print axioms Adsg.C16.trunc_sign
